@@ -61,7 +61,8 @@ def finalize(m: dict, tier: str) -> list[str]:
         if not s.get(f"sighash:taproot:{ht}"):
             out.append(f"taproot hash type {ht:#x} never completed a flow")
     for k in ("psbt-v0", "psbt-v2", "signer:software", "signer:psbt.sign", "message:bip322:p2pkh", "message:bip322:p2wpkh",
-              "message:bip322:p2sh-p2wpkh", "message:bip322:p2tr", "message:bms", "message:keywallet", "message:foreign-refused"):
+              "message:bip322:p2sh-p2wpkh", "message:bip322:p2tr", "message:bms", "message:keywallet", "message:foreign-refused",
+              "message:bip322-psbt:recognized", "message:bip322-psbt:tampered-refused"):
         if not s.get(k):
             out.append(f"{k} never exercised")
     for f in ("sign", "finalize", "extract_tx", "_finalized_taproot_input", "miniscript_solver", "verify_transaction"):
@@ -321,6 +322,52 @@ def shard_messages(ctx: Ctx) -> None:
                     ctx.violation(f"bip322-signature-verifies-for-{tag}", f"a {kind} signature verifies for {tag}", {**case, "other": ad2})
                 else:
                     ctx.stats["message:foreign-refused"] += 1
+        # ---- BIP322 as a psbt (the Creator's to_sign_psbt and the Signer's reading of it): the psbt made for (msg, addr) is
+        # recognized as the challenge of msg, before and after the wire; one carrying another message, or the utxo of another
+        # key's challenge, is not recognized as anything
+        if hasattr(bip322, "to_sign_psbt") and hasattr(bip322, "assert_signed_message"):
+            from copy import deepcopy
+
+            from btclib.psbt.psbt import Psbt
+            for kind, addr in a1.items():
+                case = {"scheme": "bip322-psbt", "kind": kind, "address": addr, "msg": msg.hex(), "network": net}
+                po = outcome(bip322.to_sign_psbt, msg, addr)
+                if po[0] == "raise":
+                    if not is_lib_exc(po[1]):
+                        ctx.violation(f"bip322:foreign-exception:{type(po[1]).__name__}", f"to_sign_psbt raised {po[1]!r}", case)
+                    else:
+                        ctx.stat("message:bip322-psbt:creator-refused")
+                    continue
+                p = po[1]
+                ctx.mon("bip322-psbt-recognition")
+                wire = outcome(lambda: Psbt.parse(p.serialize()))
+                for tag, q in (("as-built", p),) + ((("after-the-wire", wire[1]),) if wire[0] == "ok" else ()):
+                    ro, r1 = outcome(bip322.assert_signed_message, q), outcome(bip322.signed_message, q)
+                    if ro != ("ok", msg) or r1 != ("ok", msg):
+                        ctx.violation(f"bip322-psbt-own-challenge-not-recognized:{tag}", f"to_sign_psbt({kind}) {tag}: assert_signed_message -> {ro[1]!r}, "
+                                      f"signed_message -> {r1[1]!r}", case)
+                if wire[0] == "raise":
+                    ctx.violation("bip322-psbt-own-challenge-not-recognized:does-not-serialize", f"to_sign_psbt({kind}) does not survive the wire: {wire[1]!r}", case)
+                ctx.stats["message:bip322-psbt:recognized"] += 1
+                tampers = []
+                t = deepcopy(p); t.signed_message = msg + b"x"; tampers.append(("other-message", t))
+                t = deepcopy(p); t.signed_message = msg[:-1] if msg else b"\x00"; tampers.append(("other-message-shorter", t))
+                oo = outcome(bip322.to_sign_psbt, msg, a2[kind])
+                if oo[0] == "ok":
+                    t = deepcopy(p); t.inputs[0].non_witness_utxo = oo[1].inputs[0].non_witness_utxo; tampers.append(("other-key-utxo", t))
+                    t = deepcopy(oo[1]); t.signed_message = msg + b"y"; tampers.append(("other-key-other-message", t))
+                for tag, t in tampers:
+                    ro, r1 = outcome(bip322.assert_signed_message, t), outcome(bip322.signed_message, t)
+                    ctx.mon("bip322-psbt-tampered")
+                    if ro[0] == "ok" or (r1[0] == "ok" and r1[1] is not None):
+                        ctx.violation(f"bip322-psbt-tampered-challenge-recognized:{tag}", f"a to_sign psbt with {tag} is read as signing "
+                                      f"{(ro[1] if ro[0] == 'ok' else r1[1])!r}", {**case, "psbt": t.serialize(check_validity=False).hex()[:2000]})
+                    elif not is_lib_exc(ro[1]) or r1[0] == "raise":
+                        bad = ro[1] if not is_lib_exc(ro[1]) else r1[1]
+                        ctx.violation(f"bip322:foreign-exception:{type(bad).__name__}", f"{tag}: {bad!r}", case)
+                    else:
+                        ctx.stats["message:bip322-psbt:tampered-refused"] += 1
+                ctx.case(f"bip322-psbt:{kind}", ("bip322-psbt", kind, addr, msg))
         # ---- BMS and the KeyWallet on top of it
         for kind in ("p2pkh", "p2wpkh", "p2sh-p2wpkh"):
             addr = a1[kind]
